@@ -89,3 +89,17 @@ func ZZ_C18_pairs_T() {
 		runDirect(newEnv("clientcred2", tx, nil), false, true)
 	}
 }
+
+// ZZ_C18_cancelled: the storage failure is the request context ending (cancelled / timed out) under a storage
+// call of the issuing transaction of a transactional store whose transactions are NOT tied to the context:
+// the begun transaction is still rolled back, nothing is issued, and the legitimate holder's retry with a
+// fresh context succeeds - for the authorization-code and the refresh transactions.
+func ZZ_C18_cancelled() {
+	e := newEnv("cancelled", true, nil)
+	e.cancelling = true
+	if zz.Choice("flow", 2) == 0 {
+		runCode(e, codeOpts{scopes: []string{"offline", "photos"}})
+	} else {
+		runRefresh(e, false)
+	}
+}
